@@ -96,67 +96,59 @@ Proof.
   split; [auto|lia].
 Qed.
 
-(* A declared rule either becomes an AST item or leaves at least one error -- PROVIDED its
-   builder did not stop at MAX_AST_DEPTH, and an aborted rule carries an error (the parser's
-   Error event for its ERROR node, or the error the builder pushed; K checks this on every
-   generated source). *)
-Theorem ast_no_rule_lost_guarded : forall nodes c,
-  In c nodes -> ci_kind c = KRule ->
-  ci_res c <> BMaxDepth -> (ci_res c = BAbort -> 1 <= ci_errs c) ->
-  let a := build_ast nodes in
-  In (KRule, ci_name c) (a_items a) \/ 1 <= a_errors a.
-Proof.
-  intros nodes c H K NM AB. unfold build_ast. generalize (mkAst [] 0).
-  induction nodes as [|d nodes IH]; intros a; [destruct H|]. cbn [fold_left].
-  destruct H as [->|H]; [|now apply IH].
-  destruct (build_fold_mono nodes (build_item a c) (KRule, ci_name c)) as [A B].
-  unfold build_item in *. rewrite K in *.
-  destruct (ci_res c) eqn:R; cbn [build_ast_arm] in *.
-  - left. apply A. cbn. apply in_or_app. right. now left.
-  - right. specialize (AB eq_refl). cbn in B. lia.
-  - congruence.
-Qed.
+(* Builder::begin pushes an error before it returns MaxDepthReached: a fact about the GENERATED
+   table; it fails to check if the source stops reporting the depth limit (the defect repaired
+   by 2a225f1e: the arm `Err(MaxDepthReached) => {}` used to drop the rule silently) *)
+Lemma depth_limit_is_reported : maxdepth_pushes_error = true.
+Proof. vm_compute. reflexivity. Qed.
 
-(* the full statement is FALSE on the current tree: the MaxDepthReached arm does nothing and
-   no error is pushed when the depth limit is hit (DESIGN.md section 7 #14) *)
+(* A declared rule either becomes an AST item or leaves at least one error.  The hypotheses say
+   what a node carries: an aborted rule has an error (the parser's Error event for its ERROR
+   node, or the error the builder pushed; S checks this on every generated source), and a rule
+   that hit MAX_AST_DEPTH has the error Builder::begin pushes (when it pushes one). *)
 Definition ast_no_rule_lost_stmt : Prop := forall nodes c,
   In c nodes -> ci_kind c = KRule ->
   (ci_res c = BAbort -> 1 <= ci_errs c) ->
-  (* if Builder::begin pushed an error when it hits the limit, the node would carry it *)
   (ci_res c = BMaxDepth -> maxdepth_pushes_error = true -> 1 <= ci_errs c) ->
   let a := build_ast nodes in
   In (KRule, ci_name c) (a_items a) \/ 1 <= a_errors a.
 
-Lemma ast_no_rule_lost_refuted : ~ ast_no_rule_lost_stmt.
+Theorem ast_no_rule_lost : ast_no_rule_lost_stmt.
 Proof.
-  intros H.
-  (* rule a {..}  rule deep {condition: not not .. true}  rule b {..} *)
-  specialize (H [mkCstItem KRule 1 BOk 0; mkCstItem KRule 2 BMaxDepth 0; mkCstItem KRule 3 BOk 0]
-                (mkCstItem KRule 2 BMaxDepth 0)).
-  cbn [In ci_kind ci_res ci_errs] in H.
-  destruct H as [H|H]; try tauto; try discriminate.
-  - vm_compute in H. destruct H as [H|[H|H]]; try discriminate; destruct H.
-  - vm_compute in H. lia.
+  intros nodes c H K AB MD. unfold build_ast. generalize (mkAst [] 0).
+  induction nodes as [|d nodes IH]; intros a; [destruct H|]. cbn [fold_left].
+  destruct H as [->|H]; [|now apply IH].
+  destruct (build_fold_mono nodes (build_item a c) (KRule, ci_name c)) as [A B].
+  unfold build_item in *. rewrite K in *.
+  destruct (ci_res c) eqn:R.
+  - destruct (build_ast_arm KRule BOk) eqn:Arm; try (vm_compute in Arm; discriminate).
+    left. apply A. cbn. apply in_or_app. right. now left.
+  - right. specialize (AB eq_refl).
+    destruct (build_ast_arm KRule BAbort); cbn [a_errors] in B; lia.
+  - right. specialize (MD eq_refl depth_limit_is_reported).
+    destruct (build_ast_arm KRule BMaxDepth); cbn [a_errors] in B; lia.
 Qed.
 
-(* what the refuting run looks like end to end: accepted, no error, no ignored rule, 2 of 3 rules *)
-Example silent_drop_witness :
+(* end to end on the input that used to be dropped silently:
+   rule a {..}  rule deep {condition: not not .. true}  rule b {..} *)
+Example depth_limit_witness :
   let s := add_source (fun _ => OCompiled)
-             [mkCstItem KRule 1 BOk 0; mkCstItem KRule 2 BMaxDepth 0; mkCstItem KRule 3 BOk 0]
+             [mkCstItem KRule 1 BOk 0; mkCstItem KRule 2 BMaxDepth 1; mkCstItem KRule 3 BOk 0]
              (mkComp [] [] 0 0) in
-  c_rules s = [1%N; 3%N] /\ c_ignored s = [] /\ c_errs s = 0 /\ maxdepth_pushes_error = false.
+  c_rules s = [1%N; 3%N] /\ c_ignored s = [] /\ c_errs s = 1.
 Proof. vm_compute. repeat split. Qed.
 
 (* source to rules: every declared rule is built, ignored with a reason, or there is an error *)
 Theorem source_no_rule_lost : forall oracle nodes s c,
   In c nodes -> ci_kind c = KRule ->
-  ci_res c <> BMaxDepth -> (ci_res c = BAbort -> 1 <= ci_errs c) ->
+  (ci_res c = BAbort -> 1 <= ci_errs c) ->
+  (ci_res c = BMaxDepth -> maxdepth_pushes_error = true -> 1 <= ci_errs c) ->
   valid_outcome (oracle (ci_name c)) = true ->
   let s' := add_source oracle nodes s in
   In (ci_name c) (c_rules s') \/ In (ci_name c) (c_ignored s') \/ c_errs s < c_errs s'.
 Proof.
-  intros oracle nodes s c H K NM AB V. unfold add_source. cbn [c_rules c_ignored c_errs].
-  destruct (ast_no_rule_lost_guarded nodes c H K NM AB) as [I|E].
+  intros oracle nodes s c H K AB MD V. unfold add_source. cbn [c_rules c_ignored c_errs].
+  destruct (ast_no_rule_lost nodes c H K AB MD) as [I|E].
   - destruct (no_rule_lost oracle _ s _ I V) as [R|G]; [left; exact R|right; left; exact G].
   - right. right. destruct (c_items_mono oracle (a_items (build_ast nodes)) s 0%N) as (_ & _ & C). lia.
 Qed.
